@@ -756,9 +756,15 @@ class Sink:
         if not cases:
             return
         ctx, mp = self.ctx, self.mp
+        import time
+        t0 = time.time()
         lines = [enc_case(c) for c in cases]
         mout = lib.run_model_parallel("C08", lines)
+        t1 = time.time()
         rout = run_real_parallel(cases)
+        t2 = time.time()
+        self.timing = getattr(self, "timing", [])
+        self.timing.append("batch %d: model %.1fs impl %.1fs" % (len(cases), t1 - t0, t2 - t1))
         dist = self.dist
         for case, mo, (rs, r) in zip(cases, mout, rout):
             tag = case["tag"].rstrip("0123456789")
@@ -847,6 +853,7 @@ def run(ctx):
     sink.flush()
     ctx.count("iter", sink.total, len(sink.nontriv), sink.dist)
     ctx.coverage["disagreements"] = sink.n_disagree
+    ctx.notes.append("timing: " + "; ".join(getattr(sink, "timing", [])))
     for smp in sink.samples:
         ctx.sample(smp)
     crosscheck(ctx, sink.cross)
